@@ -2,7 +2,10 @@
 
 package server
 
-import "time"
+import (
+	"sort"
+	"time"
+)
 
 // VerifCloseServer closes the RESP listener and every open connection while the member stays in the
 // member list: to the other members it is an unreachable owner.  Returns once the serve loop has
@@ -17,4 +20,14 @@ func (s *Server) VerifCloseServer() error {
 	case <-time.After(3 * time.Second):
 	}
 	return err
+}
+
+// VerifCommands lists every command registered on this server's mux.
+func (s *Server) VerifCommands() []string {
+	var out []string
+	for name := range s.mux.handlers {
+		out = append(out, name)
+	}
+	sort.Strings(out)
+	return out
 }
